@@ -295,6 +295,43 @@ const c14Rule = "blocks: the same (source, depth, destination length) is compres
 	"{1,2,4,16} x Write partitions (no Flush) x drawn virtual-time schedules inside a synctest bubble, pooled buffers overwritten with a per-release pattern: byte-identical. The frame campaign is " +
 	"repeated with GOMAXPROCS 1. Non-trivial = the input compresses with >= 1 match and the runs differ in history / schedule / partition; distinct by hash(input, options, variants)."
 
+// TestC14LongHistory: one compressor object after exactly N small calls, N around the powers of two where an 8-, 16-
+// or 17-bit generation counter would wrap (the property quantifies over all prior histories, of any length).
+func TestC14LongHistory(t *testing.T) {
+	rec := stat.For("C14")
+	rec.SetRule(c14Rule)
+	if shard != 0 {
+		return
+	}
+	target := gen.Data{Segs: []gen.Seg{{K: "text", N: 3000, S: 5, P: 3}, {K: "rand", N: 500, S: 6}, {K: "copy", N: 400, P: 700, S: 1}}}.Build()
+	small := [][]byte{[]byte("abcabcabcabcabcabcab"), []byte("0123456789"), target[:40], {}}
+	for _, kind := range []string{"fast-obj", "hc-obj"} {
+		var fresh blockComps
+		want := make([]byte, lz4.CompressBlockBound(len(target)))
+		wn, _ := fresh.compress(kind, 4, target, want)
+		var used blockComps
+		dst := make([]byte, 128)
+		calls := 0
+		_, _ = used.compress(kind, 4, target, make([]byte, len(want))) // the object has seen the target's bytes before
+		calls++
+		for _, n := range []int{255, 256, 257, 65535, 65536, 65537, 131071, 131072, 131073} {
+			for calls < n-1 {
+				_, _ = used.compress(kind, 4, small[calls%len(small)], dst)
+				calls++
+			}
+			got := make([]byte, len(want))
+			gn, gerr := used.compress(kind, 4, target, got)
+			calls++
+			rec.Eval()
+			rec.Class("block/long-history")
+			rec.NonTrivial(stat.FP("long", kind, n))
+			if gerr != nil || gn != wn || !bytes.Equal(got[:gn], want[:wn]) {
+				judge(t, "C14", "C14/longhistory", map[string]interface{}{"kind": kind, "calls": n}, stat.Failf("C14/block/"+kind[:2]+"/output-depends-on-the-number-of-earlier-calls", "%s: call number %d on the same object gives n=%d err=%v, a fresh compressor gives n=%d (first difference at %d)", kind, calls, gn, gerr, wn, firstDiff(got[:gn], want[:wn])))
+			}
+		}
+	}
+}
+
 func TestC14Blocks(t *testing.T) {
 	rec := stat.For("C14")
 	rec.SetRule(c14Rule)
@@ -303,6 +340,25 @@ func TestC14Blocks(t *testing.T) {
 		rec.Require("block/history>=1MiB")
 	}
 	checkProp(t, "C14", "C14/block", pick(6000, 60000), drawC14Block, runC14Block)
+}
+
+// TestC14FramesPinned: configurations a random draw reaches too rarely: legacy frames with two and more
+// incompressible 8 MiB blocks in flight at once, 4 MiB blocks.
+func TestC14FramesPinned(t *testing.T) {
+	bubbleT = t
+	rec := stat.For("C14")
+	rec.SetRule(c14Rule)
+	if shard != 0 {
+		return
+	}
+	for _, c := range []c14FrameCase{
+		{Opts: wopts{BS: 4, Conc: 1, Legacy: true}, Data: gen.Data{Segs: []gen.Seg{{K: "rand", N: 17<<20 + 100, S: 21}}}, Variants: []c14Variant{{Conc: 4}, {Conc: 2, Chunks: []int{5 << 20, 7 << 20}}}},
+		{Opts: wopts{BS: 4, Conc: 1, Legacy: true}, Data: gen.Data{Segs: []gen.Seg{{K: "rand", N: 8<<20 + 8360000, S: 22}, {K: "text", N: 100000, S: 1, P: 4}}}, Variants: []c14Variant{{Conc: 16}}},
+		{Opts: wopts{BS: 7, Conc: 1, BlockSum: true, ContentSum: true}, Data: gen.Data{Segs: []gen.Seg{{K: "rand", N: 9 << 20, S: 23}, {K: "text", N: 5 << 20, S: 2, P: 4}}}, Variants: []c14Variant{{Conc: 4}, {Conc: 2, Chunks: []int{1, 4 << 20, 4<<20 + 1}}}},
+	} {
+		pinned(t, "C14", "C14/frame", c, runC14Frame)
+		rec.Class("frame/pinned-large")
+	}
 }
 
 func TestC14Frames(t *testing.T) {
